@@ -251,6 +251,11 @@ def _install_refs(w):
         v.seq = Seq(length=OMAP_LEN(m.t), item=item)
         return v
 
+    def f_omap_has(it, m, key):
+        i = idx_of(it, m, key)
+        return VBool(z3.And(0 <= i, i < OMAP_LEN(m.t)))
+    w.spec_funcs["omap_has"] = f_omap_has
+    w.spec_funcs["omap_at"] = lambda it, m, key: val_at(it, m, idx_of(it, m, key))
     w.builtins["omap.items"] = lambda it, f, a, k, n: seq_of(it, f.recv, "items")
     w.builtins["omap.keys"] = lambda it, f, a, k, n: seq_of(it, f.recv, "keys")
     w.builtins["omap.values"] = lambda it, f, a, k, n: seq_of(it, f.recv, "values")
